@@ -105,7 +105,7 @@ dst_row!(24, 80, D24e1, D24e2, D24e3, D24e4, D24e8, D24e24);
 /// ref_from_slice on the whole image (the caller's slice may continue behind the tag), then cast
 fn slice_cast(ctx: &Ctx, call: &Value) -> Value {
     let r = match multiboot2::DynSizedStructure::<TagHeader>::ref_from_slice(ctx.slice()) {
-        Err(e) => return out::err(&format!("{e:?}")),
+        Err(e) => return out::err_of(&e),
         Ok(r) => r,
     };
     macro_rules! c {
